@@ -621,7 +621,7 @@ class BootstrapElectionModel(BaseElectionModel):
         non_zero_epsilon_indices = np.nonzero(epsilon_y_hat)[0]
         # if there is only one non zero contest OR if the contest is a state level election only
         # then just sample from nearly zero since no variance
-        if non_zero_epsilon_indices.shape[0] == 1:
+        if non_zero_epsilon_indices.shape[0] <= 1:
             return np.zeros((1, self.B)), np.zeros((1, self.B))
 
         aggregate_indicator = np.concatenate([aggregate_indicator_train, aggregate_indicator_test], axis=0)
